@@ -30,7 +30,7 @@ ASSUMPTIONS = [
 ]
 REQUIRED_CLASSES = ["view-argument", "never-read-argument", "signed-numbers", "scientific-floats", "list-valued-column", "genotype-column", "merge-distance>0", "typed-info",
                     "lazy-chunk", "strops", "intervals", "sequence", "encoding", "genomic", "table"]
-BOUNDS = {"quick": "60 calls per registry entry (55 entries) plus 120 lazily read chunks per format (12 formats)", "thorough": "1500 calls per entry, 2500 chunks per format"}
+BOUNDS = {"quick": "60 calls per registry entry (56 entries) plus 120 lazily read chunks per format (12 formats)", "thorough": "1500 calls per entry, 2500 chunks per format"}
 BUDGET_S = {"quick": 200, "thorough": 1500}
 
 
@@ -334,6 +334,15 @@ def registry():
                 return [gi, t, base], lambda: fn(gi)
             return f
         reg(name, "genomic")(mk())
+
+    @reg("GenomicIntervals.clip(out-of-bounds)", "genomic")
+    def _(c):
+        # intervals that stick out of their chromosome on either side: clip has something to change, in a new object
+        genome = bnp.Genome.from_dict({"chr1": c["S"], "chr2": c["S"] + 3})
+        ivs = sorted((a - 1 - (i % 3), b + (i % 4)) for i, (a, b) in enumerate(tuple(x) for x in c["ivs"]))
+        t, base = intervals(ivs, c["view"])
+        gi = genome.get_intervals(t)
+        return [gi, t, base], lambda: gi.clip()
 
     @reg("GenomicIntervals.extended_to_size", "genomic")
     def _(c):
